@@ -52,17 +52,18 @@ PROPS = {
     "C09": {
         "level": "exploration",
         "assumptions": TRUST,
-        "stages": [{"driver": "stream", "stage": "", "flavour": "asan"}],
+        "stages": [{"driver": "stream", "stage": "", "flavour": "asan", "budget": {"quick": 40000, "thorough": 400000}}],
     },
     "C10": {
         "level": "exploration",
         "assumptions": TRUST,
-        "stages": [{"driver": "stream", "stage": "", "flavour": "asan-full"}],
+        "stages": [{"driver": "stream", "stage": "", "flavour": "asan-full", "budget": {"quick": 6000000, "thorough": 200000000}}],
     },
     "C03": {
         "level": "exploration",
         "assumptions": TRUST,
-        "stages": [{"driver": "ser", "stage": "dec", "flavour": "asan"}, {"driver": "ser", "stage": "api", "flavour": "asan"}],
+        "stages": [{"driver": "ser", "stage": "dec", "flavour": "asan"},
+                   {"driver": "ser", "stage": "api", "flavour": "asan", "budget": {"quick": 150000, "thorough": 1500000}}],
     },
     "C07": {
         "level": "exploration",
@@ -74,7 +75,8 @@ PROPS = {
     "C11": {
         "level": "exploration",
         "assumptions": TRUST,
-        "stages": [{"driver": "ser", "stage": "dec", "flavour": "asan"}, {"driver": "ser", "stage": "api", "flavour": "asan"}],
+        "stages": [{"driver": "ser", "stage": "dec", "flavour": "asan", "budget": {"quick": 60000, "thorough": 600000}},
+                   {"driver": "ser", "stage": "api", "flavour": "asan", "budget": {"quick": 150000, "thorough": 1500000}}],
     },
     "C04": {
         "level": "exploration",
@@ -101,8 +103,9 @@ PROPS = {
     "C06": {
         "level": "fault_enumeration",
         "assumptions": TRUST + ["'exactly as they were' is judged on the semantic snapshot (contents, order, sizes, reference counts, identity); spare capacity is excluded"],
-        "stages": [{"driver": "fault", "stage": "api", "flavour": "asan"}, {"driver": "fault", "stage": "small", "flavour": "asan"},
-                   {"driver": "fault", "stage": "corpus", "flavour": "asan"}],
+        "stages": [{"driver": "fault", "stage": "api", "flavour": "asan", "budget": {"quick": 6000, "thorough": 60000}},
+                   {"driver": "fault", "stage": "small", "flavour": "asan", "budget": {"quick": 5, "thorough": 6}},
+                   {"driver": "fault", "stage": "corpus", "flavour": "asan", "budget": {"quick": 8000, "thorough": 80000}}],
     },
     "C15": {
         "level": "exploration",
@@ -123,15 +126,15 @@ PROPS = {
     "C17": {
         "level": "exploration",
         "assumptions": TRUST + ["'all interleavings' is sampled: ThreadSanitizer is happens-before based, so an unsynchronised access pair is reported whenever both accesses execute in a run, regardless of timing; API-pair coverage is reported"],
-        "stages": [{"driver": "thr", "stage": "tsan", "flavour": "tsan", "shards": 4},
-                   {"driver": "thr", "stage": "digest", "flavour": "plain-O2", "shards": 2},
-                   {"driver": "thr", "stage": "segment", "flavour": "pic-so", "shards": 4}],
+        "stages": [{"driver": "thr", "stage": "tsan", "flavour": "tsan", "shards": 4, "budget": {"quick": 120, "thorough": 1200}},
+                   {"driver": "thr", "stage": "digest", "flavour": "plain-O2", "shards": 2, "budget": {"quick": 60, "thorough": 600}},
+                   {"driver": "thr", "stage": "segment", "flavour": "pic-so", "shards": 4, "budget": {"quick": 96, "thorough": 800}}],
     },
     "C18": {
         "level": "exploration",
         "assumptions": TRUST,
         "stages": [{"driver": "ro", "stage": "", "flavour": "plain-O0"}, {"driver": "ro", "stage": "", "flavour": "plain-O2"},
-                   {"driver": "thr", "stage": "readers", "flavour": "tsan", "shards": 4}],
+                   {"driver": "thr", "stage": "readers", "flavour": "tsan", "shards": 4, "budget": {"quick": 800, "thorough": 8000}}],
     },
     "C19": {
         "level": "exploration",
